@@ -1,6 +1,7 @@
 package main
 
 import (
+	"strconv"
 	"fmt"
 	"go/ast"
 	"go/parser"
@@ -481,6 +482,11 @@ func (w *World) tryResolveType(pkg *types.Package, x ast.Expr) types.Type {
 			if t := w.tryResolveType(pkg, n.Elt); t != nil {
 				return types.NewSlice(t)
 			}
+		} else if bl, ok := n.Len.(*ast.BasicLit); ok {
+			if t := w.tryResolveType(pkg, n.Elt); t != nil {
+				k, _ := strconv.Atoi(bl.Value)
+				return types.NewArray(t, int64(k))
+			}
 		}
 	case *ast.MapType:
 		k, v := w.tryResolveType(pkg, n.Key), w.tryResolveType(pkg, n.Value)
@@ -534,9 +540,16 @@ func (w *World) calleeEnv(u *Unit, c *Contract, callee *ssa.Function, sig *types
 }
 
 func (w *World) pureApp(u *Unit, c *Contract, callee *ssa.Function, sig *types.Signature, args []Val, heap *Heap) Val {
+	return w.pureAppN(u, c, callee, sig, args, heap, -1)
+}
+
+func (w *World) pureAppN(u *Unit, c *Contract, callee *ssa.Function, sig *types.Signature, args []Val, heap *Heap, idx int) Val {
 	name := "pure:" + c.Pkg + "." + c.Key
 	if callee != nil {
 		name = "pure:" + callee.String()
+	}
+	if idx >= 0 {
+		name += fmt.Sprintf("#%d", idx)
 	}
 	var sorts, ts []string
 	for _, a := range args {
@@ -546,7 +559,11 @@ func (w *World) pureApp(u *Unit, c *Contract, callee *ssa.Function, sig *types.S
 		sorts = append(sorts, u.D.SortOf(a.Typ))
 		ts = append(ts, a.T)
 	}
-	rt := sig.Results().At(0).Type()
+	ri := idx
+	if ri < 0 {
+		ri = 0
+	}
+	rt := sig.Results().At(ri).Type()
 	if !c.Flags["heapfree"] {
 		u.scalar("$hv", "Int")
 		sorts = append(sorts, "Int")
